@@ -447,7 +447,9 @@ def d4(cx: Cx, ob: Ob) -> None:
             ob.undecide("from_rdflib prefix map is not a single dict comprehension")
             continue
         tgt, it, elt = sc
-        if it != ("call", ("attr", g, "namespaces"), (), ()):
+        # rdflib: Graph.namespaces() delegates to Graph.namespace_manager.namespaces(); the argument may be either
+        ok_src = (("call", ("attr", g, "namespaces"), (), ()), ("call", ("attr", ("attr", g, "namespace_manager"), "namespaces"), (), ()))
+        if it not in ok_src:
             ob.violate(m.qualname, where(m, line), f"from_rdflib iterates `{show(it)[:50]}`, not .namespaces()", detail="source")
         if op(tgt) == "tuple" and len(tgt[1]) == 2:
             k, v = tgt[1]
